@@ -95,6 +95,9 @@ type biRun struct {
 	hist   []string
 	bad    bool
 	sparse bool // observe only every few calls (done by the caller)
+	noNest bool // no nested calls (Clone, Range, changes of another Bimap) inside observer callbacks:
+	// an observer that clones leaves a trace in a copy-on-write implementation and may heal
+	// what a history without it would show
 }
 
 func (br *biRun) fail(sig, msg string) {
@@ -202,11 +205,28 @@ func (br *biRun) check(l *biLive, op string) bool {
 	// in a quarter of the observations one callback makes nested read-only calls on
 	// the same Bimap (a nested Range included); the outer Range must not notice
 	nestAt, nestMsg, visited := -1, "", 0
-	if n := len(l.m.ps); n > 0 && c.R.Chance(1, 4) {
+	if n := len(l.m.ps); n > 0 && !br.noNest && c.R.Chance(1, 4) {
 		nestAt = c.R.Intn(n)
+	}
+	// ... and changes a DIFFERENT Bimap, which is nobody's business but that Bimap's
+	other := &maps.Bimap[int, string]{}
+	other.Add(1, "one")
+	otherOK := func(when string) {
+		v2, ok2 := other.GetForward(2)
+		k3, ok3 := other.GetReverse("three")
+		n := 0
+		other.Range(func(int, string) bool { n++; return true })
+		if other.Len() != 2 || n != 2 || !ok2 || v2 != "two" || !ok3 || k3 != 3 || other.ContainsForward(1) || other.ContainsReverse("one") {
+			nestMsg = fmt.Sprintf("a second Bimap got Add(2,two) Add(3,three) RemoveForward(1) inside the Range callback of this one; %s it has Len %d, Range visits %d, GetForward(2)=(%q,%v) GetReverse(three)=(%d,%v) ContainsForward(1)=%v", when, other.Len(), n, v2, ok2, k3, ok3, other.ContainsForward(1))
+		}
 	}
 	l.b.Range(func(k int, v string) bool {
 		if visited == nestAt {
+			other.Add(2, "two")
+			other.Add(3, "three")
+			other.RemoveForward(1)
+			otherOK("inside the callback")
+			c.Count("other_bimap_changed_in_range_callback", 1)
 			c.Count("nested_readonly_calls_in_range_callback", 1)
 			inner := map[bpair]int{}
 			l.b.Range(func(k int, v string) bool { inner[bpair{k, v}]++; return true })
@@ -224,6 +244,9 @@ func (br *biRun) check(l *biLive, op string) bool {
 		seen[bpair{k, v}]++
 		return true
 	})
+	if nestAt >= 0 && nestMsg == "" {
+		otherOK("after that Range")
+	}
 	if nestMsg != "" {
 		br.fail(op+":nested-read-in-Range", nestMsg)
 		return false
@@ -269,7 +292,7 @@ func runC11(c *core.Ctx) {
 				if x == -1 && y != -1 {
 					continue
 				}
-				br := &biRun{c: c}
+				br := &biRun{c: c, noNest: n%2 == 0}
 				l := &biLive{b: &maps.Bimap[int, string]{}, m: &bimodel{}}
 				ops := []int{a, b}
 				if x >= 0 {
@@ -299,7 +322,7 @@ func runC11(c *core.Ctx) {
 		return
 	}
 	// random: longer histories, from the zero value or from a clone, continuing on both
-	br := &biRun{c: c}
+	br := &biRun{c: c, noNest: r.Chance(2, 3)}
 	live := []*biLive{{b: &maps.Bimap[int, string]{}, m: &bimodel{}}}
 	nops := r.Range(1, 60)
 	obsEvery := 1
